@@ -337,6 +337,7 @@ ScriptObs runScript(const ScriptSpec& s) {
   monReset();
   ThreadPool* pool = new ThreadPool(static_cast<size_t>(s.N), static_cast<size_t>(s.mult));
   g.pool = pool;
+  vrt::progress();
   vrt::setStateDumper(poolState);
   std::atomic<int> phase{0};
   SetMon mon;
@@ -365,6 +366,7 @@ ScriptObs runScript(const ScriptSpec& s) {
       ResizeScope r;
       pool->resize(s.target);
       g.resizes.fetch_add(1, std::memory_order_relaxed);
+      vrt::progress();
     }
     vrt::gateOpen(V::kPoolBulkRingsAfterCount);
     while (phase.load(std::memory_order_acquire) < 1) usleep(50);
@@ -375,6 +377,7 @@ ScriptObs runScript(const ScriptSpec& s) {
       if (ph == 3) {
         ResizeScope r;
         pool->resize(s.N);
+        vrt::progress();
         phase.store(4, std::memory_order_release);
         break;
       }
@@ -382,6 +385,7 @@ ScriptObs runScript(const ScriptSpec& s) {
       usleep(100);
     }
     prod.join();
+    vrt::progress();
   } else if (s.kind == SK_RINGBULK_AFTER_JOIN || s.kind == SK_RINGBULK_AFTER_STOP || s.kind == SK_PLACED_AFTER_STOP) {
     int site = s.kind == SK_RINGBULK_AFTER_JOIN ? V::kPoolResizeAfterJoin : V::kPoolResizeAfterStop;
     int cur = s.N;
@@ -398,6 +402,7 @@ ScriptObs runScript(const ScriptSpec& s) {
         ResizeScope r;
         pool->resize(tgt);
         g.resizes.fetch_add(1, std::memory_order_relaxed);
+        vrt::progress();
       });
       bool arrived = vrt::gateWaitArrived(site, 20000);
       if (!arrived) fail("resizer never reached its gate");
@@ -509,6 +514,7 @@ ScriptObs runScript(const ScriptSpec& s) {
       ResizeScope r;
       pool->resize(0);
       g.resizes.fetch_add(1, std::memory_order_relaxed);
+      vrt::progress();
     }
     vrt::gateOpen(V::kPoolForceEnqueueAfterSizeTest);
     prod.join();
